@@ -114,15 +114,43 @@ func runCtxCase(a args, idx int, r *h.Rand) {
 		for _, t := range tasks {
 			st = append(st, &scheduler.Stage{Name: t.Name, Task: t, AllowFailure: true})
 		}
+		if len(st) >= 3 && r.Chance(50) {
+			// the first k stages become an included pipeline; the remaining stages depend on it,
+			// so tasks of the same contexts run after the nested pipeline has finished
+			k := r.Range(1, len(st)-1)
+			inner, err := scheduler.NewExecutionGraph(st[:k]...)
+			if err != nil {
+				panic(err)
+			}
+			outer := []*scheduler.Stage{{Name: "included", Pipeline: inner, AllowFailure: true}}
+			for _, s := range st[k:] {
+				s.DependsOn = []string{"included"}
+				outer = append(outer, s)
+			}
+			st = outer
+			how = "scheduler+nested"
+		}
 		g, err := scheduler.NewExecutionGraph(st...)
 		if err != nil {
 			panic(err)
 		}
+		stageOf := map[string]*scheduler.Stage{}
+		var collect func(g *scheduler.ExecutionGraph)
+		collect = func(g *scheduler.ExecutionGraph) {
+			for n, s := range g.Nodes() {
+				if s.Pipeline != nil {
+					collect(s.Pipeline)
+				} else {
+					stageOf[n] = s
+				}
+			}
+		}
+		collect(g)
 		sch := scheduler.NewScheduler(tr)
 		sch.VerifSetPause(300 * time.Microsecond)
 		sch.Schedule(g)
 		for _, t := range tasks {
-			s, _ := g.Node(t.Name)
+			s := stageOf[t.Name]
 			if s.ReadStatus() == scheduler.StatusError || s.Task.Errored {
 				res[t.Name] = fmt.Errorf("failed")
 			}
@@ -135,7 +163,7 @@ func runCtxCase(a args, idx int, r *h.Rand) {
 	lockedFinish(tr.Finish)
 	for name, tk := range info.Tasks {
 		tk.RetOK = res[name] == nil
-		if how == "scheduler" && info.UpFails[tk.Ctx] {
+		if strings.HasPrefix(how, "scheduler") && info.UpFails[tk.Ctx] {
 			tk.RetOK = false // the stage's own error is not visible through Task fields when Run failed before starting; checked via tokens only
 		}
 		info.Tasks[name] = tk
